@@ -61,7 +61,8 @@ type inst struct {
 	pending     sync.WaitGroup // async api calls
 	npend       atomic.Int32
 	startCancel atomic.Pointer[context.CancelFunc]
-	napping     atomic.Bool // a "nap" reaction is letting virtual time pass while a call of this instance is held
+	prevCancel  atomic.Pointer[context.CancelFunc] // the context of the Start call before the latest one
+	napping     atomic.Bool                        // a "nap" reaction is letting virtual time pass while a call of this instance is held
 }
 
 type Runner struct {
@@ -418,6 +419,7 @@ func (r *Runner) doStart(i *inst) {
 		// which the "cancelstart" action ends later
 		var cancel context.CancelFunc
 		ctx, cancel = context.WithCancel(ctx)
+		i.prevCancel.Store(i.startCancel.Load())
 		i.startCancel.Store(&cancel)
 	}
 	err := i.el.Start(ctx)
@@ -622,7 +624,14 @@ func (r *Runner) act(a *Action) {
 		r.async(i, a.Sync, func() { r.doStop(i, a.Stop, false); r.doStart(i) })
 	case "cancelstart":
 		if i != nil {
-			if c := i.startCancel.Load(); c != nil {
+			if a.Val == "previous" {
+				// the context of an EARLIER run of this election object ends (its deferred cancel,
+				// its time-out): that run was stopped long ago, nothing of the current run is concerned
+				if c := i.prevCancel.Load(); c != nil {
+					(*c)()
+					r.add(Event{Kind: "start.ctx.cancelled.previous", Inst: a.Inst})
+				}
+			} else if c := i.startCancel.Load(); c != nil {
 				(*c)()
 				r.add(Event{Kind: "start.ctx.cancelled", Inst: a.Inst})
 			}
@@ -670,6 +679,8 @@ func (r *Runner) act(a *Action) {
 		r.St.OutsideDelete(a.Inst)
 	case "outexpire":
 		r.St.OutsideExpire(a.Inst)
+	case "outreset":
+		r.St.OutsideReset(a.Inst)
 	case "conn":
 		if i != nil && i.connQ != nil {
 			for _, c := range a.Val {
